@@ -40,7 +40,11 @@ RULE = (
     "slope (sd 0 or 0.15-0.6, correlated or not) + noise (sd 0.03-0.2), 1/8 of the values missing, x with_random_slope_age x "
     "force_independent_random_effects x ingestion with the reader default or with drop_full_nan=False (visits without value reach fit and "
     "personalisation), plus a small cohort of new individuals (1-4 visits, ingested the same way). One evaluation = one fitted cohort. "
-    "Non-trivial = random-slope model fitted on >= 10 individuals; distinct by the whole case."
+    "Non-trivial = random-slope model fitted on >= 10 individuals; distinct by the whole case. "
+    "Reuse histories: one ConstantModel object personalising 2-3 cohorts whose columns are the same features permuted / the same / other features "
+    "(one or all four prediction types per step), every step judged by the same oracle as a fresh model; one LMEModel object through "
+    "fit [personalize] [estimate] (fit | load_parameters on another cohort) [personalize] estimate [...]: parameters, random effects and trajectories "
+    "must equal those of a fresh model fitted on the current cohort and the line of the CURRENT parameters (non-trivial = estimate after a parameter change that followed an estimate)."
 )
 ASSUMPTIONS = [
     "Constant model: a visit whose features are all missing is dropped by the documented default of the data reader (drop_full_nan=True), "
@@ -76,6 +80,9 @@ REQUIRED_CLASSES = {
     "const:direct-unsorted": 0.05,
     "constant:negative-ages": 0.05,
     "constant:negative-ages+shorter-history": 0.03,
+    "reuse:permuted-columns": 100,
+    "reuse:four-prediction-types-one-object": 100,
+    "lme:refit-after-estimate": 50,
     "lme:nan-at-personalisation": 100,
     "lme:nan-at-personalisation+random-slope": 50,
     "lme:nontrivial": 100,
@@ -196,9 +203,12 @@ def _value(draw, vmode):
 
 
 @st.composite
-def constant_case(draw):
-    nf = draw(st.integers(1, 4))
-    feats = draw(st.lists(st.sampled_from(FEATURE_POOL), min_size=nf, max_size=nf, unique=True))
+def constant_case(draw, features=None):
+    if features is not None:
+        feats, nf = list(features), len(features)
+    else:
+        nf = draw(st.integers(1, 4))
+        feats = draw(st.lists(st.sampled_from(FEATURE_POOL), min_size=nf, max_size=nf, unique=True))
     n = draw(st.integers(1, 6))
     id_kind = draw(st.sampled_from(STR_ID_KINDS))
     ids = [gen.ID_ALPHABETS[id_kind](i) for i in range(n)]
@@ -342,7 +352,9 @@ def _constant_classes(case):
     return sorted(cl), nontrivial
 
 
-def body_constant(col: Collector, case):
+def body_constant(col: Collector, case, model=None, sub="constant", fail_input=None, extra_classes=()):
+    """`model`: a ConstantModel shared with earlier calls (reuse histories; default: a fresh model per prediction type).
+    `fail_input`: what is recorded as the replayable input of a failure (default: the case + prediction type)."""
     import numpy as np
 
     from leaspy.algo import AlgorithmSettings
@@ -360,14 +372,14 @@ def body_constant(col: Collector, case):
         col.exclude("constant:" + x)
     ptypes = [case["ptype"]] if case.get("ptype") else PTYPES
     for pt in ptypes:
-        inp = dict(case, ptype=pt)
-        classes = list(base_classes) + ["const:pt=" + pt]
+        inp = dict(case, ptype=pt) if fail_input is None else fail_input
+        classes = list(base_classes) + ["const:pt=" + pt] + list(extra_classes)
         exp = ref_constant(df, feats, pt, drop)
         ok = True
         # ---- public path ---------------------------------------------------------------------
         try:
             with _quiet():
-                m = ConstantModel("constant")
+                m = model if model is not None else ConstantModel("constant")
                 form = case["input_form"]
                 if form == "dataframe" and drop:
                     data = df.copy()
@@ -378,22 +390,22 @@ def body_constant(col: Collector, case):
                 ip = m.personalize(data, "constant_prediction", prediction_type=pt)
             got = {str(k): v for k, v in ip.items()}
         except Exception as e:
-            col.fail("constant", "unexpected-exception:personalize:" + exc_bucket(e), inp, observed=repr(e), expected="personalize succeeds")
+            col.fail(sub, "unexpected-exception:personalize:" + exc_bucket(e), inp, observed=repr(e), expected="personalize succeeds")
             col.case(classes=classes)
             continue
         if sorted(got) != sorted(exp):
-            col.fail("constant", "ids-differ", inp, observed=sorted(got), expected=sorted(exp))
+            col.fail(sub, "ids-differ", inp, observed=sorted(got), expected=sorted(exp))
             ok = False
         mfeats = list(m.features or [])
         if sorted(mfeats) != sorted(feats):
-            col.fail("constant", "features-differ", inp, observed=mfeats, expected=feats)
+            col.fail(sub, "features-differ", inp, observed=mfeats, expected=feats)
             ok = False
         if ok:
             for id_, (vals, scales) in exp.items():
                 for f, v, s in zip(feats, vals, scales):
                     o = got[id_].get(f, "missing")
                     if not _const_ok(o, v, s):
-                        col.fail("constant", f"parameter-differs:{pt}" + (":nan-pattern" if (_isnan(v) or o != o) else ""), inp,
+                        col.fail(sub, f"parameter-differs:{pt}" + (":nan-pattern" if (_isnan(v) or o != o) else ""), inp,
                                  observed={id_: {f: o}}, expected={id_: {f: v}})
                         ok = False
                         break
@@ -406,14 +418,14 @@ def body_constant(col: Collector, case):
                 try:
                     est = m.estimate(tp, ip)
                 except Exception as e:
-                    col.fail("constant", "unexpected-exception:estimate:" + exc_bucket(e), inp, observed=repr(e), expected="estimate succeeds")
+                    col.fail(sub, "unexpected-exception:estimate:" + exc_bucket(e), inp, observed=repr(e), expected="estimate succeeds")
                     est = None
                 if est is not None:
                     if case["api"] == "multiindex":
                         arr = np.asarray(est.values, dtype=float)
                         cols = list(est.columns)
                         if arr.shape != (len(wanted), nf) or sorted(map(str, cols)) != sorted(feats) or list(est.index) != list(wanted):
-                            col.fail("constant", "estimate-shape", inp, observed=dict(shape=arr.shape, columns=cols, index=list(est.index)),
+                            col.fail(sub, "estimate-shape", inp, observed=dict(shape=arr.shape, columns=cols, index=list(est.index)),
                                      expected=dict(shape=(len(wanted), nf), columns=feats, index=wanted))
                         else:
                             for row, (id_, age) in zip(arr, wanted):
@@ -421,7 +433,7 @@ def body_constant(col: Collector, case):
                                 for j, c in enumerate(cols):
                                     k = feats.index(str(c))
                                     if not _const_ok(row[j], vals[k], scales[k]):
-                                        col.fail("constant", f"estimate-differs:{pt}", inp, observed={str(id_): {"age": age, str(c): row[j]}},
+                                        col.fail(sub, f"estimate-differs:{pt}", inp, observed={str(id_): {"age": age, str(c): row[j]}},
                                                  expected=vals[k])
                                         ok = False
                                         break
@@ -432,14 +444,14 @@ def body_constant(col: Collector, case):
                             arr = np.asarray(est[id_])
                             vals, scales = exp[str(id_)]
                             if arr.shape != (len(ages), nf):
-                                col.fail("constant", "estimate-shape", inp, observed={str(id_): arr.shape}, expected=(len(ages), nf))
+                                col.fail(sub, "estimate-shape", inp, observed={str(id_): arr.shape}, expected=(len(ages), nf))
                                 break
                             bad = False
                             for i_age in range(len(ages)):
                                 for j, f in enumerate(mfeats):
                                     k = feats.index(f)
                                     if not _const_ok(arr[i_age, j], vals[k], scales[k]):
-                                        col.fail("constant", f"estimate-differs:{pt}", inp,
+                                        col.fail(sub, f"estimate-differs:{pt}", inp,
                                                  observed={str(id_): {"age": ages[i_age], f: float(arr[i_age, j])}}, expected=vals[k])
                                         bad = True
                                         break
@@ -958,6 +970,240 @@ def shard_lme(seed: int, n_examples: int, max_n: int = 24, shard: int = 0):
 
 
 # ------------------------------------------------------------------------------------------------
+# engine KR: one ConstantModel object reused across cohorts / prediction types
+# ------------------------------------------------------------------------------------------------
+@st.composite
+def reuse_case(draw):
+    nf = draw(st.integers(2, 4))
+    feats = draw(st.lists(st.sampled_from(FEATURE_POOL), min_size=nf, max_size=nf, unique=True))
+    steps = []
+    for i in range(draw(st.integers(2, 3))):
+        if i > 0:
+            mode = draw(st.sampled_from(["permuted", "permuted", "same", "different"]))
+            if mode == "permuted":
+                perm = list(draw(st.permutations(feats)))
+                feats = perm if perm != feats else feats[1:] + feats[:1]
+            elif mode == "different":
+                k = draw(st.integers(1, 4))
+                feats = draw(st.lists(st.sampled_from(FEATURE_POOL), min_size=k, max_size=k, unique=True))
+        step = draw(constant_case(features=feats))
+        step["ptype"] = draw(st.sampled_from([None, None, "last", "last-known", "max", "mean"]))  # None = all four, same object
+        steps.append(step)
+    return dict(engine="constant-reuse", steps=steps)
+
+
+def body_reuse(col: Collector, case):
+    from leaspy.models import ConstantModel
+
+    m = ConstantModel("constant")
+    prev = None
+    for i, step in enumerate(case["steps"]):
+        feats = list(step["features"])
+        extra = ["reuse:step"]
+        if prev is not None:
+            if sorted(prev) == sorted(feats) and prev != feats:
+                extra.append("reuse:permuted-columns")
+            elif prev == feats:
+                extra.append("reuse:same-columns")
+            else:
+                extra.append("reuse:different-features")
+        if step.get("ptype") is None:
+            extra.append("reuse:four-prediction-types-one-object")
+        body_constant(col, step, model=m, sub="constant-reuse", fail_input=case, extra_classes=extra)
+        prev = feats
+
+
+def shard_reuse(seed: int, n_examples: int, shard: int = 0):
+    env.import_leaspy()
+    col = Collector(PROP, f"constant-reuse-{shard}")
+    drive(col, reuse_case(), body_reuse, n_examples=n_examples, seed=shard_seed(seed, shard, salt=3), sub_check="constant-reuse")
+    return col
+
+
+# ------------------------------------------------------------------------------------------------
+# engine LR: one LMEModel object through fit / personalize / estimate / re-fit (or load_parameters) / estimate
+# ------------------------------------------------------------------------------------------------
+@st.composite
+def lme_history_case(draw, max_n=12):
+    cohorts = [draw(lme_case(max_n=max_n)) for _ in range(2)]
+    slope = cohorts[0]["slope"]
+    ops = [["fit", 0]]
+    if draw(st.booleans()):
+        ops.append(["personalize"])
+    if draw(st.sampled_from([True, True, True, False])):
+        ops.append(["estimate"])
+    ops.append([draw(st.sampled_from(["fit", "fit", "load"])), 1])
+    if draw(st.booleans()):
+        ops.append(["personalize"])
+    ops.append(["estimate"])
+    if draw(st.booleans()):
+        ops.append([draw(st.sampled_from(["fit", "load"])), draw(st.integers(0, 1))])
+        ops.append(["estimate"])
+    return dict(engine="lme-reuse", slope=slope, cohorts=cohorts, ops=ops)
+
+
+def _lme_ingest(c):
+    from leaspy.io.data import Data
+
+    per = _lme_reference_data(c["rows"])
+    rows = c["rows"]
+    if c.get("keep_nan"):
+        rows = [r for r in rows if str(r[0]) in per]
+        return Data.from_dataframe(_table_df(rows, ["y"]), drop_full_nan=False), per
+    return _table_df(rows, ["y"]), per
+
+
+def _lme_series(est, wanted, api):
+    """estimate output -> [(id, ages, values)] or None if the shape is not (n_ages, 1) / the index is not the requested one."""
+    import numpy as np
+
+    if api == "multiindex":
+        arr = np.asarray(est.values, dtype=float)
+        if arr.shape != (len(wanted), 1) or list(est.index) != list(wanted):
+            return None
+        grouped = {}
+        for (id_, age), v in zip(wanted, arr[:, 0]):
+            grouped.setdefault(id_, ([], []))
+            grouped[id_][0].append(age)
+            grouped[id_][1].append(float(v))
+        return [(id_, a, np.array(v)) for id_, (a, v) in grouped.items()]
+    out = []
+    for id_, ages in wanted:
+        arr = np.asarray(est[id_], dtype=float)
+        if arr.shape != (len(ages), 1):
+            return None
+        out.append((id_, ages, arr[:, 0]))
+    return out
+
+
+def body_lme_history(col: Collector, case):
+    import numpy as np
+
+    from leaspy.exceptions import LeaspyDataInputError
+    from leaspy.models import LMEModel
+
+    slope = bool(case["slope"])
+    cohorts = case["cohorts"]
+    fresh = {}  # cohort index -> (fresh model fitted on it, its personalisation) or None when the library refuses/fails
+
+    def fresh_of(k):
+        if k not in fresh:
+            data, _ = _lme_ingest(cohorts[k])
+            try:
+                with _quiet(), warnings.catch_warnings():
+                    warnings.simplefilter("ignore")
+                    fm = LMEModel("lme-fresh", with_random_slope_age=slope)
+                    fm.fit(data, "lme_fit", force_independent_random_effects=bool(cohorts[k]["indep"]))
+                    fresh[k] = (fm, fm.personalize(data, "lme_personalize"))
+            except Exception as e:
+                if (isinstance(e, LeaspyDataInputError) and "singular" in str(e)) or (
+                        type(e).__name__ == "LinAlgError" and _raised_inside_mixedlm_fit(e)):
+                    fresh[k] = None
+                else:
+                    raise
+        return fresh[k]
+
+    def same_params(a, b):
+        return all(np.array_equal(np.asarray(a[key]), np.asarray(b[key])) for key in ("ages_mean", "ages_std", "fe_params", "cov_re", "noise_std"))
+
+    m = LMEModel("lme", with_random_slope_age=slope)
+    cur, ip, estimated, refit_after_estimate, n_changes = None, None, False, False, 0
+    for op in case["ops"]:
+        kind = op[0]
+        if kind in ("fit", "load"):
+            k = op[1]
+            fr = fresh_of(k)
+            if fr is None:
+                col.exclude("lme-reuse:fit-refused-or-library-failure")
+                return
+            try:
+                with _quiet(), warnings.catch_warnings():
+                    warnings.simplefilter("ignore")
+                    if kind == "fit" or cur is None:
+                        m.fit(_lme_ingest(cohorts[k])[0], "lme_fit", force_independent_random_effects=bool(cohorts[k]["indep"]))
+                    else:
+                        m.load_parameters(dict(fr[0].parameters))
+            except Exception as e:
+                col.fail("lme-reuse", f"unexpected-exception:{kind}:" + exc_bucket(e), case, observed=repr(e), expected=f"{kind} succeeds like on a fresh model")
+                return
+            if not same_params(m.parameters, fr[0].parameters):
+                col.fail("lme-reuse", f"parameters-differ-from-fresh-model:{kind}", case,
+                         observed={k_: np.asarray(v).tolist() for k_, v in m.parameters.items()},
+                         expected={k_: np.asarray(v).tolist() for k_, v in fr[0].parameters.items()})
+                return
+            refit_after_estimate = refit_after_estimate or (estimated and cur is not None)
+            n_changes += 1
+            cur, ip = k, None
+            continue
+        c = cohorts[cur]
+        data, per = _lme_ingest(c)
+        fm, fip = fresh_of(cur)
+        if kind == "personalize" or ip is None:
+            try:
+                with _quiet(), warnings.catch_warnings():
+                    warnings.simplefilter("ignore")
+                    ip = m.personalize(data, "lme_personalize")
+                got = {str(k_): _re_of(v, slope) for k_, v in ip.items()}
+                ref = {str(k_): _re_of(v, slope) for k_, v in fip.items()}
+            except Exception as e:
+                col.fail("lme-reuse", "unexpected-exception:personalize:" + exc_bucket(e), case, observed=repr(e), expected="personalize succeeds")
+                return
+            if sorted(got) != sorted(ref) or any(not np.array_equal(got[k_], ref[k_]) for k_ in ref):
+                col.fail("lme-reuse", "random-effects-differ-from-fresh-model", case, observed={k_: v.tolist() for k_, v in got.items()},
+                         expected={k_: v.tolist() for k_, v in ref.items()})
+                return
+            if kind == "personalize":
+                continue
+        # ---- estimate: closed form of the CURRENT parameters + what a fresh model fitted on the same data predicts
+        reqs = [r for r in c["requests"] if str(c["ids"][r["ind"]]) in per]
+        if not reqs:
+            continue
+        tp, wanted = _timepoints_arg(reqs, c["ids"], c["api"])
+        try:
+            est = m.estimate(tp, ip)
+            est_f = fm.estimate(tp, fip)
+        except Exception as e:
+            col.fail("lme-reuse", "unexpected-exception:estimate:" + exc_bucket(e), case, observed=repr(e), expected="estimate succeeds")
+            return
+        ser, ser_f = _lme_series(est, wanted, c["api"]), _lme_series(est_f, wanted, c["api"])
+        classes = ["lme-reuse:estimate", "lme-reuse:after-" + str(n_changes) + "-parameter-changes"]
+        if refit_after_estimate:
+            classes.append("lme:refit-after-estimate")
+        if ser is None or ser_f is None:
+            col.fail("lme-reuse", "trajectory-shape", case, observed=str(type(est)), expected="(n_ages, 1) per requested individual")
+            return
+        P = m.parameters
+        mean_m, std_m, fe_m = float(P["ages_mean"]), float(P["ages_std"]), np.asarray(P["fe_params"], dtype=float)
+        bad = False
+        for (id_, ages, ys), (_, _, yf) in zip(ser, ser_f):
+            re = _re_of(ip[str(id_)], slope)
+            b0, b1 = float(re[0]), (float(re[1]) if slope else 0.0)
+            an = (np.array([float(x) for x in ages]) - mean_m) / std_m
+            ref = fe_m[0] + b0 + (fe_m[1] + b1) * an
+            tol = 2e-6 * (abs(fe_m[0]) + abs(b0) + np.abs((fe_m[1] + b1) * an)) + 1e-7
+            if not (np.abs(ys - ref) <= tol).all():
+                col.fail("lme-reuse", "trajectory-line-of-current-parameters", case, observed={str(id_): dict(ages=list(ages), values=ys.tolist())}, expected=ref.tolist())
+                bad = True
+                break
+            if not (np.abs(ys - yf) <= tol).all():
+                col.fail("lme-reuse", "trajectory-differs-from-fresh-model", case, observed={str(id_): ys.tolist()}, expected=yf.tolist())
+                bad = True
+                break
+        estimated = True
+        col.case(classes=classes, nontrivial=(jhash([case, len(classes), n_changes]) if refit_after_estimate else None),
+                 sample=dict(engine="lme-reuse", ops=case["ops"], slope=slope, n_individuals=[len(c_["ids"]) for c_ in cohorts]))
+        if bad:
+            return
+
+
+def shard_lme_history(seed: int, n_examples: int, shard: int = 0):
+    env.import_leaspy()
+    col = Collector(PROP, f"lme-reuse-{shard}")
+    drive(col, lme_history_case(), body_lme_history, n_examples=n_examples, seed=shard_seed(seed, shard, salt=4), sub_check="lme-reuse")
+    return col
+
+
+# ------------------------------------------------------------------------------------------------
 # input classes excluded by construction: dedicated reproducers (recorded as notes, never as violations)
 # ------------------------------------------------------------------------------------------------
 def repro_empty_ages():
@@ -1035,13 +1281,17 @@ def shard_edges(shard: int = 0):
 def shards(tier: str, seed: int):
     specs = []
     if tier == "quick":
-        n_lme, max_n, n_const = 40, 24, 260
+        n_lme, max_n, n_const, n_hist, n_reuse = 40, 24, 260, 40, 40
     else:
-        n_lme, max_n, n_const = 1000, 40, 5000
+        n_lme, max_n, n_const, n_hist, n_reuse = 1000, 40, 5000, 300, 1000
     for s in range(16):
         specs.append((MOD, "shard_lme", dict(seed=seed, n_examples=n_lme, max_n=max_n, shard=s)))
+    for s in range(8):
+        specs.append((MOD, "shard_lme_history", dict(seed=seed, n_examples=n_hist, shard=s)))
     for s in range(16):
         specs.append((MOD, "shard_constant", dict(seed=seed, n_examples=n_const, shard=s)))
+    for s in range(8):
+        specs.append((MOD, "shard_reuse", dict(seed=seed, n_examples=n_reuse, shard=s)))
     specs.append((MOD, "shard_edges", dict()))
     return specs
 
@@ -1053,4 +1303,8 @@ def replay(sub_check: str, inp):
         body_constant(col, inp)
     elif sub_check == "lme":
         body_lme(col, inp)
+    elif sub_check == "constant-reuse":
+        body_reuse(col, inp)
+    elif sub_check == "lme-reuse":
+        body_lme_history(col, inp)
     return col.failures
